@@ -119,6 +119,11 @@ class Run:
                             self.side["evaluations"] += 1
                             self.side["max_factor_ratio"] = max(self.side["max_factor_ratio"], r.get("factor_ratio") or 0.0)
                             self.side["max_residual_ratio"] = max(self.side["max_residual_ratio"], r.get("residual_ratio") or 0.0)
+                            for kk in ("berr_checked", "rpg_checked", "ilu_solve_checked"):
+                                if r.get(kk):
+                                    self.side[kk] = self.side.get(kk, 0) + 1
+                            if r.get("berr_dev_in_eps") is not None:
+                                self.side["max_berr_deviation_in_eps"] = max(self.side.get("max_berr_deviation_in_eps", 0.0), r["berr_dev_in_eps"])
                         for cl in r["bad"]:
                             if self.relevant(cl):
                                 bad_here.append((cl, v))
